@@ -203,6 +203,11 @@ def step (line : String) : String :=
       (resJson (FuncAttr.funcRT pr) fun r =>
         Json.mkObj ((match r.typ with | some t => [("typ", Json.str (String.ofList t))] | none => []) ++
           (match r.default with | some v => [("default", valToJson v)] | none => []))).compress
+    | .ok "parse_doc" =>
+      let t := (optStr j "text").getD []
+      let emit := (j.getObjValAs? Bool "emit").toOption.getD true
+      let st : DocEmit.Style := if (j.getObjValAs? String "style").toOption.getD "" == "google" then .google else .numpydoc
+      (resJson (DocParse.parseDocstring st t emit) irToJson).compress
     | .ok "scan_doc" =>
       let t := (optStr j "text").getD []
       let st : DocEmit.Style := if (j.getObjValAs? String "style").toOption.getD "" == "google" then .google else .numpydoc
